@@ -250,6 +250,42 @@ func readShard(rep *Report, in HamtInput, st *Store, root cid.Cid, expected map[
 		if o.Class != "panic" && fmt.Sprint(loads) != fmt.Sprint(path) && !(len(loads) == 0 && len(path) == 0) {
 			fail("C05", "lookup-loads", "a lookup requested shards other than those on the name's hash path", path, loads)
 		}
+		// under unavailable shards every entry point reports what LookupByString reports (a fresh node each)
+		if faulty && o.Class != "panic" {
+			for _, how := range []string{"node-basic", "node-dagpb", "segment"} {
+				nf, err := fresh()
+				if err != nil {
+					break
+				}
+				idf := -1
+				of := guard(func() error {
+					var v datamodel.Node
+					var err error
+					switch how {
+					case "node-basic":
+						v, err = nf.LookupByNode(basicnode.NewString(k))
+					case "node-dagpb":
+						sb := dagpb.Type.String.NewBuilder()
+						must(sb.AssignString(k))
+						v, err = nf.LookupByNode(sb.Build())
+					default:
+						v, err = nf.LookupBySegment(datamodel.PathSegmentOfString(k))
+					}
+					if err != nil {
+						return err
+					}
+					idf = linkIDExt(v)
+					return nil
+				})
+				if of != o || idf != id {
+					prop := "C15"
+					if missing {
+						prop = "C12"
+					}
+					fail(prop, "entrypoints-faulty", "with unavailable shards a lookup entry point reports something else than LookupByString", fmt.Sprint(o, id), fmt.Sprint(how, " ", of, idf))
+				}
+			}
+		}
 		// entry points agree (fault-free only, each on a fresh node)
 		if !faulty && o.Class != "panic" {
 			n2, _ := fresh()
@@ -262,6 +298,20 @@ func readShard(rep *Report, in HamtInput, st *Store, root cid.Cid, expected map[
 				id2 = linkIDExt(v)
 				return nil
 			})
+			id5 := -1
+			r5 := guard(func() error {
+				sb := dagpb.Type.String.NewBuilder()
+				must(sb.AssignString(k))
+				v, err := n2.LookupByNode(sb.Build())
+				if err != nil {
+					return err
+				}
+				id5 = linkIDExt(v)
+				return nil
+			})
+			if r5 != o || id5 != id {
+				fail("C15", "entrypoints", "LookupByNode with a dag-pb string key disagrees with LookupByString", fmt.Sprint(o, id), fmt.Sprint(r5, id5))
+			}
 			r3 := guard(func() error {
 				v, err := n2.LookupBySegment(datamodel.PathSegmentOfString(k))
 				if err != nil {
@@ -281,6 +331,13 @@ func readShard(rep *Report, in HamtInput, st *Store, root cid.Cid, expected map[
 			})
 			if r2 != o || r3 != o || id2 != id || id3 != id || r4.Class != "ok" || id4 != id {
 				fail("C15", "entrypoints", "lookup entry points of a sharded directory disagree", fmt.Sprint(o, id), fmt.Sprint(r2, id2, r3, id3, r4, id4))
+				if member && (r2.Class != "ok" || id2 != want || r3.Class != "ok" || id3 != want || r5.Class != "ok" || id5 != want || id4 != want) {
+					// the map of the entries is what every entry point reads (a path walk resolves names by segment)
+					fail("C02", "member-lookup-entrypoint", "a member name is not resolved to its link by one of the lookup entry points", want, fmt.Sprint(r2, id2, r5, id5, r3, id3, r4, id4))
+					if in.Mode == "ref" {
+						fail("C08", "ref-member-lookup-entrypoint", "an entry of a reference-written sharded directory is not resolved by one of the lookup entry points", want, fmt.Sprint(r2, id2, r5, id5, r3, id3, r4, id4))
+					}
+				}
 			}
 		}
 		res := "(Err " + coarseErr(o) + ")"
@@ -315,6 +372,27 @@ func readShard(rep *Report, in HamtInput, st *Store, root cid.Cid, expected map[
 						fail("C02", "repeated-lookup-absent", "a repeated lookup of a non-member name on the same node is not reported not-found", "notfound", fmt.Sprint(o.Class, " (attempt ", rep+1, ")"))
 					}
 				}
+			}
+		}
+	}
+	// ---- hostile blocks: the same node object used again (whatever the first access cached must not disarm a check)
+	if in.Mode == "hostile" {
+		if sharedH, err := fresh(); err == nil {
+			oh := guard(func() error {
+				for rep := 0; rep < 3; rep++ {
+					it := sharedH.MapIterator()
+					for steps := 0; !it.Done() && steps < 4*len(order)+64; steps++ {
+						_, _, _ = it.Next()
+					}
+					_ = sharedH.Length()
+					for _, k := range probes {
+						_, _ = sharedH.LookupByString(k)
+					}
+				}
+				return nil
+			})
+			if oh.Class == "panic" {
+				fail("C13", "repeated-access-panic", "iterating / counting / looking up a hostile shard again on the same node panicked", "values or errors", "panic")
 			}
 		}
 	}
@@ -383,7 +461,7 @@ func readShard(rep *Report, in HamtInput, st *Store, root cid.Cid, expected map[
 				}
 			}
 		}
-		if fan := shardFanout(dag); fan > 0 {
+		if fan := shardFanout(dag); fan > 0 && in.Mode != "hostile" {
 			walk(dag, len(fmt.Sprintf("%X", fan-1)))
 		}
 		for k, id := range reach {
@@ -457,6 +535,7 @@ func readShard(rep *Report, in HamtInput, st *Store, root cid.Cid, expected map[
 				for _, l := range got {
 					if l != int64(len(expected)) {
 						fail("C02", "length-after-iteration", "Length read after an iterator was polled past its end is not the entry count", len(expected), got)
+						fail("C15", "length-after-iteration", "Length read after an iterator was polled past its end differs from the number of pairs iteration yields", len(expected), got)
 						break
 					}
 				}
@@ -881,15 +960,21 @@ func scnHamt(rep *Report, rng *Rng, tier string, outdir string) {
 	rep.Dist("C02", fmt.Sprintf("hashbits-cases=%d", len(hashes)))
 
 	// ---- name pools
-	base := []string{"a", "b", "file with spaces", "ünïcödé", "日本語", "00", "FF", "1F", "0A", "3FF", "deadbeef", "A", "aa", "a.txt", "b.txt", "index.html", " ", "\x00\x01"}
+	base := []string{"a", "b", "file with spaces", "ünïcödé", "日本語", "00", "FF", "1F", "0A", "3FF", "deadbeef", "A", "aa", "a.txt", "b.txt", "index.html", " ", "\x00\x01", "caf\xe9.txt", "\xff\xfe", "\xe6\x97", "ok\xc3"}
 	names := func(n int) []string {
 		seen := map[string]bool{}
 		var out []string
 		for len(out) < n {
 			var s string
-			switch rng.Intn(4) {
+			switch rng.Intn(5) {
 			case 0:
 				s = base[rng.Intn(len(base))]
+			case 4:
+				// names that read as integers: a path segment of that text is still a name, not an index
+				s = rng.Pick([]string{"0", "1", "18", "007", "-1", "2024", "+5", "1e3", "0x10"})
+				if rng.Intn(2) == 0 {
+					s = fmt.Sprint(rng.Intn(400))
+				}
 			case 1:
 				s = fmt.Sprintf("entry-%d", rng.Intn(5000))
 			case 2:
@@ -1077,6 +1162,33 @@ func scnHamt(rep *Report, rng *Rng, tier string, outdir string) {
 		rep.Count("C13", string(key), len(in.Hostile.Links) > 0, in)
 		rep.Dist("C13", "hostile-shard")
 	}
+	// every pair of differing parent/child fanouts, the child holding value links whose names are as long as the
+	// child's prefix plus 0..3 characters (shorter than the parent's prefix for wide parents): whatever the first
+	// access leaves behind on the node, the later ones must not panic on it
+	for _, fp := range []uint64{8, 16, 256, 512, 1024} {
+		for _, fc := range []uint64{8, 16, 256, 512, 1024} {
+			if fp == fc {
+				continue
+			}
+			u := func(v uint64) *uint64 { return &v }
+			padP, padC := len(fmt.Sprintf("%X", fp-1)), len(fmt.Sprintf("%X", fc-1))
+			child := &HShard{Type: 5, Fanout: u(fc), HashType: u(0x22), HasBits: true, Bits: make([]byte, fc/8)}
+			for extra := 0; extra <= 3; extra++ {
+				nm := fmt.Sprintf("%0*X", padC, extra) + "abc"[:extra]
+				child.Bits[len(child.Bits)-1] |= 1 << uint(extra)
+				child.Links = append(child.Links, HLink{Name: &nm})
+			}
+			rootBits := make([]byte, fp/8)
+			rootBits[len(rootBits)-1] = 1
+			pn := fmt.Sprintf("%0*X", padP, 0)
+			in := HamtInput{Mode: "hostile", Hostile: &HShard{Type: 5, Fanout: u(fp), HashType: u(0x22), HasBits: true, Bits: rootBits,
+				Links: []HLink{{Name: &pn, Child: child}}}, Probes: []string{"a", "", "ab", "abc", "x"}}
+			runHamtInput(rep, in, cfHost)
+			key, _ := json.Marshal(in)
+			rep.Count("C13", string(key), true, in)
+			rep.Dist("C13", "hostile-fanout-mismatch")
+		}
+	}
 	// a narrow DAG of shards whose levels each link twice to the same child, ending in an empty shard: 41 small
 	// blocks whose unfolding has 2^40 leaves.  Length() (and the preloading reification built on it) memoises the
 	// count per child block and must answer at once; lookups are bounded by the hash.  (Iteration is not run here:
@@ -1255,13 +1367,17 @@ func buildHostile(st *Store, h *HShard) cid.Cid {
 
 func genHostile(rng *Rng, depth int) *HShard {
 	u := func(v uint64) *uint64 { return &v }
-	fan := []uint64{8, 8, 16, 16, 256}[rng.Intn(5)]
+	fan := []uint64{8, 8, 16, 16, 256, 512, 1024}[rng.Intn(7)]
 	h := &HShard{Type: 5, Fanout: u(fan), HashType: u(0x22), HasBits: true}
 	nbytes := int(fan / 8)
 	h.Bits = rng.Bytes(nbytes)
 	switch rng.Intn(14) {
 	case 0:
 		h.Bits = rng.Bytes(nbytes + 1 + rng.Intn(3)) // too long
+		if rng.Intn(2) == 0 {
+			// too long, but only by leading zero bytes (a big.Int-style writer would never emit them)
+			h.Bits = append(make([]byte, 1+rng.Intn(3)), rng.Bytes(nbytes)...)
+		}
 	case 1:
 		h.Bits = rng.Bytes(rng.Intn(nbytes + 1)) // short
 	case 2:
